@@ -442,7 +442,8 @@ func (fx *fnExec) havocLoc(st *State, loc Loc) {
 			h := st.heapGet(key, ArraySort(IntSort, rowS))
 			oldRow := Select(h, s.C[0])
 			newRow := Fresh("modrow", rowS)
-			st.heapSet(key, Store(h, s.C[0], newRow))
+			// a nil slice has no backing array: nothing can be written through it
+			st.heapSet(key, Store(h, s.C[0], Ite(Eq(s.C[0], IntC(0)), oldRow, newRow)))
 			// elems(s)/spare(s): the whole backing array may change (what the callee-side frame check
 			// allows); onlyelems(s)/onlyspare(s) (trusted contracts only): just [off, off+len) resp.
 			// [off+len, off+cap)
